@@ -89,7 +89,11 @@ func renderWire(v eval.Value) string {
 
 // runWiring interprets pkg.entry(args...) in the pipeline model. canned gives results for recorded functions that
 // return values (keyed by "pkgname.Func"); failing names a stage that reports an error instead of completing.
-func runWiring(c *core.Ctx, pkg, entry string, args []eval.Value, numCPU int, canned map[string]wireCanned, failing string) wireRun {
+func runWiring(c *core.Ctx, pkg, entry string, args []eval.Value, numCPU int, canned map[string]wireCanned, failing string, stageNames ...map[string]bool) wireRun {
+	var known map[string]bool
+	if len(stageNames) > 0 {
+		known = stageNames[0]
+	}
 	var run wireRun
 	fn := c.LookupFunc(pkg, entry)
 	if fn == nil {
@@ -122,6 +126,11 @@ func runWiring(c *core.Ctx, pkg, entry string, args []eval.Value, numCPU int, ca
 			key := p.Types.Name() + "." + name
 			can, isCanned := canned[key]
 			if !hasChan && !isCanned {
+				continue
+			}
+			// only the specification's stage functions are recorders; a helper that merely takes channels
+			// (`go signalWhenDone(&wg, done)`, `awaitStage(done, errs)`) is interpreted like the entry point itself
+			if known != nil && !isCanned && !known[key] {
 				continue
 			}
 			ev.Extern[f.FullName()] = func(ev *eval.Evaluator, pos token.Pos, recv eval.Value, a []eval.Value) eval.Value {
@@ -235,9 +244,17 @@ func checkWiring(c *core.Ctx, rule, pkg, entry string, scenarios []wireScenario)
 	pos := funcPos(c, pkg, entry)
 	var bad, badErr, und []string
 	n := 0
+	known := map[string]bool{}
+	for _, sc := range scenarios {
+		for _, e := range currentStageNames(c, sc.want) {
+			if i := strings.Index(e, "("); i > 0 {
+				known[e[:i]] = true
+			}
+		}
+	}
 	for _, sc := range scenarios {
 		n++
-		r := runWiring(c, pkg, entry, sc.args, sc.numCPU, sc.canned, "")
+		r := runWiring(c, pkg, entry, sc.args, sc.numCPU, sc.canned, "", known)
 		if r.err != nil {
 			und = append(und, fmt.Sprintf("[%s] %v", sc.label, r.err))
 			continue
@@ -253,7 +270,7 @@ func checkWiring(c *core.Ctx, rule, pkg, entry string, scenarios []wireScenario)
 			bad = append(bad, fmt.Sprintf("[%s] every stage completes, yet the entry point returns %s", sc.label, eval.Show(r.result)))
 			continue
 		}
-		got, want := sortedCopy(r.events), sortedCopy(sc.want)
+		got, want := sortedCopy(r.events), sortedCopy(currentStageNames(c, sc.want))
 		if strings.Join(got, "\n") != strings.Join(want, "\n") {
 			bad = append(bad, fmt.Sprintf("[%s] started but not specified: %s; specified but not started: %s", sc.label, strings.Join(diffOnly(got, want), " + "), strings.Join(diffOnly(want, got), " + ")))
 			continue
@@ -261,7 +278,7 @@ func checkWiring(c *core.Ctx, rule, pkg, entry string, scenarios []wireScenario)
 		// any one stage reporting an error makes the entry point return an error
 		for _, st := range r.stages {
 			n++
-			rf := runWiring(c, pkg, entry, sc.args, sc.numCPU, sc.canned, st)
+			rf := runWiring(c, pkg, entry, sc.args, sc.numCPU, sc.canned, st, known)
 			if rf.err != nil {
 				und = append(und, fmt.Sprintf("[%s; %s fails] %v", sc.label, st, rf.err))
 				continue
@@ -297,6 +314,25 @@ func diffOnly(a, b []string) []string {
 	}
 	if len(out) == 0 {
 		out = []string{"(nothing else)"}
+	}
+	return out
+}
+
+// currentStageNames maps the stage names of a specification (reference tree) to the names those functions
+// carry on the analysed tree (an unexported stage may have been renamed; anchors resolve by signature).
+func currentStageNames(c *core.Ctx, events []string) []string {
+	out := make([]string, len(events))
+	for i, e := range events {
+		out[i] = e
+		par := strings.Index(e, "(")
+		dot := strings.Index(e, ".")
+		if par < 0 || dot < 0 || dot > par {
+			continue
+		}
+		pkg, name := e[:dot], e[dot+1:par]
+		if cur := currentName(c, "pkg/"+pkg, name); cur != name {
+			out[i] = pkg + "." + cur + e[par:]
+		}
 	}
 	return out
 }
